@@ -455,7 +455,12 @@ where
             // The starting steps are only yielded once an Adams step has confirmed them, so
             // they need room for that step before the end. Otherwise advance by single
             // Runge-Kutta steps, which are yielded directly.
-            if self.time.real() + self.dt.real() * self.order.real() >= self.end.real() {
+            // (the time after the starting steps is accumulated exactly as they accumulate it)
+            let mut after_start = self.time;
+            for _ in 0..O - 1 {
+                after_start += self.dt;
+            }
+            if after_start.real() + self.dt.real() >= self.end.real() {
                 self.runge_kutta(1)?;
                 self.prev_values.clear();
                 self.prev_derivatives.clear();
